@@ -649,7 +649,7 @@ pub fn main_run<P: Property>(p: &P, tier: Tier, seed: u64, only_suite: Option<Su
 }
 
 /// replay a saved case through the property's check function (strict: nothing is suppressed)
-pub fn main_replay<P: Property>(p: &P, body: &Value) -> i32 {
+pub fn main_replay<P: Property>(p: &P, body: &Value, path: &str) -> i32 {
     let suite = body["suite"].as_str().and_then(SuiteId::from_name);
     let suite = match suite {
         Some(s) => s,
@@ -689,7 +689,7 @@ pub fn main_replay<P: Property>(p: &P, body: &Value) -> i32 {
             2
         }
         Err(f) => {
-            println!("VIOLATION property={} replay=<given>", p.id());
+            println!("VIOLATION property={} replay={}", p.id(), path);
             println!("  suite={} key={} : {}", suite.name(), f.key, f.msg);
             1
         }
